@@ -272,9 +272,10 @@ PROPS['C13'] = {
     'level': 'exploration',
     'exhaustive_possible': True,
     'runs': [{'name': 'asan', 'flavour': 'asan', 'driver': 'drv_c13', 'timeout': 1800},
-             {'name': 'asan-dbg', 'flavour': 'asan-dbg', 'driver': 'drv_c13', 'env': {'PV_SCALE': '10'}, 'shards': 4, 'timeout': 1800}],
+             {'name': 'asan-dbg', 'flavour': 'asan-dbg', 'driver': 'drv_c13', 'env': {'PV_SCALE': '10'}, 'shards': 4, 'timeout': 1800},
+             {'name': 'clang', 'flavour': 'clang-asan', 'driver': 'drv_c13', 'env': {'PV_SCALE': '10'}, 'shards': 4, 'timeout': 1800}],
     'require': {'walks.matched_model': 3000, 'exhaustive.sequences': 11110, 'ops.create': 10000, 'ops.load': 10000, 'ops.decode': 20000, 'ops.crypt': 10000, 'ops.reinject': 3000,
-                'ops.enable': 5000, 'ops.free': 5000, 'observations': 100000, 'static_storage.checks': 100000, 'max.static_storage.ranges_of_library_objects_monitored': 2},
+                'ops.enable': 5000, 'ops.free': 5000, 'observations': 100000, 'static_storage.checks': 100000, 'walks.with_address_reusing_allocator': 1500, 'ops.non_constructor_with_failing_allocator': 500, 'max.static_storage.ranges_of_library_objects_monitored': 2},
 }
 MANIFEST_TEXT['C13'] = {'technique': 'runtime monitoring: lock-step execution of operation sequences against an executable abstract model (history + model), junk-filling allocator, ASan/UBSan (NDEBUG and assertion-enabled builds)',
     'text': 'Random walks of 50-200 operations over up to six live seeds (create with arbitrary arguments, load, both decoders on model phrases / other slots\' phrases / grammar strings / wrong coins, crypt, encode, keygen, getters, free, free(NULL), enable_features, re-injection of a second stub set, armed allocation failures) are executed on the library and on the abstract model; every status, output buffer, getter value, key and dependency tag is compared at once and all other live seeds are re-observed (store image, periodically all observers) after every step. All sequences up to length 4 (quick) / 5 (thorough) over a 10-symbol alphabet are enumerated completely.',
